@@ -1,5 +1,5 @@
-From E2V Require Import Gen.FeatureMasks Tune.FeatureEdit.
+From E2V Require Import Gen.FeatureMasks Tune.FeatureEdit Tune.MntOpts.
 Require Extraction.
 Require Import ExtrOcamlBasic.
 Extraction Language OCaml.
-Extraction "tune_model.ml" tune2fs_edit.
+Extraction "tune_model.ml" tune2fs_edit mnt_step.
